@@ -305,11 +305,14 @@ def oracle_never_outside(c):
     for t in c.extra.get("ident", []):
         if t and t[0] == "OUT":
             return "returned an object that was never inside the root: " + " ".join(t[1:])
+    for t in c.extra.get("linkbody", []):
+        if t and t[0] == "OUT":
+            return "read the link body of an object that was never inside the root: " + " ".join(t[1:])
     return None
 
 
 def check_C02(v, tier, seed):
-    n = sizes(tier, 14, 120)
+    n = sizes(tier, 20, 120)
     per = sizes(tier, 300, 700)
     runs = [Run("C02-attack", ["attack", "--seed", str(seed), "--n", str(n), "--per-case", str(per)]),
             Run("C02-attack-enosys", ["attack", "--seed", str(seed + 104729), "--n", str(max(n // 2, 8)),
